@@ -143,7 +143,15 @@ def run_log(chk, log, refs, workdir, trunc_fraction=0.5, label=""):
     def in_place(kw):
         if "z" not in shared:
             shared["z"] = np.array(kw["z"], dtype=float)
-            shared["profiles"] = tuple(np.array(a, dtype=float) for a in kw["profiles"])
+            if len(log) % 2:
+                # the profiles as COLUMNS of one (levels x variables) table - strided views, as a caller slicing a
+                # levels x time-steps array passes them: the cache must take any array the solver takes
+                table = np.empty((len(kw["z"]), len(kw["profiles"])), dtype=float)
+                for k_, a in enumerate(kw["profiles"]):
+                    table[:, k_] = a
+                shared["profiles"] = tuple(table[:, k_] for k_ in range(table.shape[1]))
+            else:
+                shared["profiles"] = tuple(np.array(a, dtype=float) for a in kw["profiles"])
         else:
             np.copyto(shared["z"], kw["z"])
             for dst, src in zip(shared["profiles"], kw["profiles"]):
